@@ -331,20 +331,20 @@ Qed.
 
 (** histories in which every executed block state is connected: only real transactions
     (accepted, or refused by validation) and block boundaries *)
-Inductive Connected (c : cfg) : gstate -> list op -> gstate -> Prop :=
-| conn_nil g : Connected c g [] g
-| conn_tx g t e g1 ops g' :
-    step c g (OTx t) = (e, g1) -> e <> EPanic ->
+Inductive Connected (c0 : cfg) : gstate -> list (Z * op) -> gstate -> Prop :=
+| conn_nil g : Connected c0 g [] g
+| conn_tx v g t e g1 ops g' :      (* [v]: hardfork version of the block the transaction is in *)
+    step (set_ver v c0) g (OTx t) = (e, g1) -> e <> EPanic ->
     (forall who amt, t = TUnstake who amt -> e <> EInsufficient) ->
-    Connected c g1 ops g' -> Connected c g (OTx t :: ops) g'
-| conn_block g n ops g' :
-    Connected c (snd (step c g (OBlock n))) ops g' -> Connected c g (OBlock n :: ops) g'.
+    Connected c0 g1 ops g' -> Connected c0 g ((v, OTx t) :: ops) g'
+| conn_block v g n ops g' :
+    Connected c0 (snd (step (set_ver v c0) g (OBlock n))) ops g' -> Connected c0 g ((v, OBlock n) :: ops) g'.
 
-Theorem mirror_connected_histories c g ops g' :
-  Connected c g ops g' -> gmirror (g_d g) (g_m g) -> gmirror (g_d g') (g_m g').
+Theorem mirror_connected_histories c0 g ops g' :
+  Connected c0 g ops g' -> gmirror (g_d g) (g_m g) -> gmirror (g_d g') (g_m g').
 Proof.
-  induction 1 as [g|g t e g1 ops g' S Np Hu C IH|g n ops g' C IH]; intros M; auto.
-  - apply IH. unfold step in S.
+  induction 1 as [g|v g t e g1 ops g' S Np Hu C IH|v g n ops g' C IH]; intros M; auto.
+  - apply IH. set (c := set_ver v c0) in *. unfold step in S.
     destruct (apply_tx c (g_no g) (g_d g) (g_m g) t) as [[e0 d1] m1] eqn:A. injection S as <- <-. cbn [g_d g_m].
     destruct (err_eqb e0 EOk) eqn:E.
     + assert (e0 = EOk) by (destruct e0; simpl in E; congruence). subst. eapply apply_tx_preserves_mirror; eauto.
